@@ -15,7 +15,7 @@ from .c01 import shape_sig
 
 PROP = 'C19'
 LEVEL = 'exploration'
-N = {'quick': 40000, 'thorough': 2000000}
+N = {'quick': 22000, 'thorough': 2000000}
 RULE = ('seeded worlds biased to many chunks / segments and channels absent from some segments; per world a '
         'history of read_data windows, slices (incl. negative steps) and integer indices (with repeated indices '
         'into the same chunk) on one lazily opened recording stream; every read()/readinto() event of each op is '
